@@ -540,6 +540,22 @@ Section FieldProofs.
       apply N.leb_le in Hl. eexists; split; [reflexivity|]. intros r.
       cbn [Model.dec_f]. rewrite <- app_assoc, read_be_app, pow2, N.mod_small by lia.
       rewrite take_app, strip0_id by assumption. reflexivity.
+    - (* FVar16Max *) apply andb_true_iff in Hv. destruct Hv as [Hv Hl].
+      apply andb_true_iff in Hv. destruct Hv as [_ Hm]. rewrite Hl.
+      apply N.leb_le in Hl. apply N.leb_le in Hm. eexists; split; [reflexivity|]. intros r.
+      cbn [Model.dec_f]. rewrite <- app_assoc, read_be_app, pow2, N.mod_small by lia.
+      destruct (N.ltb_spec m (blen b)); [lia|]. rewrite take_app. reflexivity.
+    - (* FArr16 *) apply andb_true_iff in Hv. destruct Hv as [Hv Hc].
+      apply andb_true_iff in Hv. destruct Hv as [Hv Hmod].
+      apply andb_true_iff in Hv. destruct Hv as [_ Hn0].
+      rewrite Hc. apply N.leb_le in Hc. apply N.eqb_eq in Hmod.
+      apply negb_true_iff in Hn0. apply Nat.eqb_neq in Hn0.
+      eexists; split; [reflexivity|]. intros r.
+      cbn [Model.dec_f]. destruct n as [|n']; [contradiction|].
+      rewrite <- app_assoc, read_be_app, pow2, N.mod_small by lia.
+      assert (Hx : blen b / N.of_nat (S n') * N.of_nat (S n') = blen b).
+      { pose proof (N.div_mod (blen b) (N.of_nat (S n'))) as Hd. lia. }
+      rewrite Hx, take_app. reflexivity.
   Qed.
 
   (* terminal fields swallow the rest *)
@@ -608,6 +624,33 @@ Section FieldProofs.
       { rewrite (proj2 (wf_bytesb_spec _) (strip0_wf _ Hh)), strip0_head. reflexivity. }
       split; [assumption|]. eexists; split; [reflexivity|].
       split; [rewrite !app_length, !be_enc_length; lia|discriminate].
+    - (* FVar16Max *) destruct (read_be 2 b) as [[l t]|] eqn:E; [|discriminate].
+      apply read_be_spec in E; [|assumption]. destruct E as (-> & Hl & Ht). rewrite pow2 in Hl.
+      destruct (N.ltb_spec m l) as [|Hml]; [discriminate|].
+      destruct (take l t) as [[h t']|] eqn:E2; [|discriminate].
+      intros H; inversion H; subst. apply take_spec in E2. destruct E2 as [-> Hlen].
+      apply wf_app in Ht. destruct Ht as [Hh Ht'].
+      cbn [valid_f enc_f]. assert (Hle : (blen h <=? 65535) = true) by (apply N.leb_le; lia).
+      rewrite Hle. split.
+      { rewrite (proj2 (wf_bytesb_spec _) Hh). cbn [andb]. rewrite andb_true_r.
+        apply N.leb_le. lia. }
+      split; [assumption|]. eexists; split; [reflexivity|]. rewrite Hlen.
+      split; [rewrite !app_length, be_enc_length; lia|]. intros _. rewrite <- app_assoc. reflexivity.
+    - (* FArr16 *) destruct n as [|n']; [discriminate|].
+      destruct (read_be 2 b) as [[c t]|] eqn:E; [|discriminate].
+      apply read_be_spec in E; [|assumption]. destruct E as (-> & Hc & Ht). rewrite pow2 in Hc.
+      destruct (take (c * N.of_nat (S n')) t) as [[h t']|] eqn:E2; [|discriminate].
+      intros H; inversion H; subst. apply take_spec in E2. destruct E2 as [-> Hlen].
+      apply wf_app in Ht. destruct Ht as [Hh Ht'].
+      assert (Hn : N.of_nat (S n') <> 0) by lia.
+      assert (Hdiv : blen h / N.of_nat (S n') = c) by (rewrite Hlen; apply N.div_mul; assumption).
+      assert (Hmod : blen h mod N.of_nat (S n') = 0) by (rewrite Hlen; apply N.mod_mul; assumption).
+      cbn [valid_f enc_f]. rewrite Hdiv, Hmod.
+      assert (Hle : (c <=? 65535) = true) by (apply N.leb_le; lia).
+      rewrite Hle. split.
+      { rewrite (proj2 (wf_bytesb_spec _) Hh). reflexivity. }
+      split; [assumption|]. eexists; split; [reflexivity|].
+      split; [rewrite !app_length, be_enc_length; lia|]. intros _. rewrite <- app_assoc. reflexivity.
     - (* FRest *) intros H; inversion H; subst. cbn [valid_f enc_f].
       split; [apply wf_bytesb_spec; assumption|]. split; [constructor|].
       eexists; split; [reflexivity|]. split; [cbn; lia|]. intros _. rewrite app_nil_r. reflexivity.
